@@ -199,6 +199,13 @@ def associate(stream, n):
         a=s.before-1
         while a>=0 and cb[a]<0: cb[a]=s.index; a-=1
         s.before=a+1
+    # a character reached by only one of the two extension walks (its slots were deleted at the edge of the text)
+    # takes the missing side from the side that was set: both values are slot indices, as the API documents
+    for j in range(n):
+        if cb[j]<0 and ca[j]>=0: cb[j]=ca[j]
+        if ca[j]<0 and cb[j]>=0: ca[j]=cb[j]
+    stream_cinfo[0]=[[cb[j],ca[j]] for j in range(n)]
+stream_cinfo=[[]]
 def setglyph(s,g,gl):
     s.gid=g; s.adv=gl[g]['adv'] if g<len(gl) else 0; s.advy=0
 def finalise(s, base, cm, depth=0, rtl=0):
@@ -237,4 +244,4 @@ def position(stream, rtl=0):
 stream_adv=[0]
 def dump(stream):
     adv=stream_adv[0]
-    return {'slots':[{'par':(stream.index(s.parent) if s.parent is not None else -1),'gid':s.gid,'before':s.before,'after':s.after,'advx':s.adv,'sx':s.sx,'sy':s.sy,'user':s.user,'x':s.pos[0],'y':s.pos[1]} for s in stream],'adv':adv}
+    return {'cinfo':stream_cinfo[0],'slots':[{'par':(stream.index(s.parent) if s.parent is not None else -1),'gid':s.gid,'before':s.before,'after':s.after,'orig':s.orig,'advx':s.adv,'sx':s.sx,'sy':s.sy,'user':s.user,'x':s.pos[0],'y':s.pos[1]} for s in stream],'adv':adv}
